@@ -780,8 +780,7 @@ func runC04Round4(c *Ctx) {
 		}
 	}
 	isExtract := func(fn *ssa.Function, ci ssa.CallInstruction) bool {
-		cf := staticCalleeFn(ci)
-		return cf != nil && cf.Pkg == fn.Pkg && recvNamedOfFn(cf) == nil && strings.HasPrefix(cf.Name(), "extract")
+		return isExtractionFn(staticCalleeFn(ci), rootFn(fn).Pkg)
 	}
 
 	c.Rule("R9", "PAIR", "after a partial extraction inside a walker (the element did not fit and a nested extract took a part of it) the walker's remaining budget is updated on every path before the walker returns: the elements that follow are never admitted against the budget of before the cut", 8)
@@ -854,10 +853,13 @@ func runC04Round4(c *Ctx) {
 				if payload == nil {
 					continue
 				}
+				// the fallback extraction sits on one side of the guard (whichever way the test is written)
 				fallback := false
 				for _, e := range exts {
-					if e.Block() == b.Succs[0] || b.Succs[0].Dominates(e.Block()) {
-						fallback = true
+					for _, sc := range b.Succs {
+						if len(sc.Preds) == 1 && (e.Block() == sc || sc.Dominates(e.Block())) {
+							fallback = true
+						}
 					}
 				}
 				if !fallback {
